@@ -371,7 +371,7 @@ def run_shard(spec):
 
 def check_floors(counters, evaluations, tier):
     msgs = []
-    for key, frac in (('B-inside-A', 0.2), ('conflict-error', 0.15),
+    for key, frac in (('B-inside-A', 0.08), ('conflict-error', 0.06),
                       ('A-failed-asynchronously', 0.005)):
         if counters.get(key, 0) < frac * evaluations:
             msgs.append("%s in only %d of %d cases" % (
